@@ -75,6 +75,8 @@ pub enum Step {
     PreApprove { token: usize, #[serde(with = "i128s")] amt: i128, live_for: u32 },
     Forward { token: usize, #[serde(with = "i128s")] fee: i128, #[serde(with = "i128s")] max: i128, exp_rel: i64, arg: u32, tamper: Tamper, user_signs: bool, relayer: usize, relayer_signs: bool },
     Allow { token: usize, on: bool, by_manager: bool },
+    /// permissioned forwarder: the manager sweeps the collected fees of a token to a recipient
+    Sweep { token: usize, to: usize, by_manager: bool },
     SetTrap { on: bool },
     Advance { n: u32 },
 }
@@ -210,7 +212,9 @@ impl Check for Forwarder {
                         Step::Forward { token, fee, max, exp_rel, arg: rng.below(1000) as u32, tamper, user_signs: !rng.chance(6), relayer: if rng.chance(90) { 1 } else { 3 }, relayer_signs: !rng.chance(5) }
                     }
                     71..=80 if cfg.permissioned => Step::Allow { token: rng.below(4) as usize, on: rng.chance(60), by_manager: !rng.chance(12) },
-                    81..=85 => Step::SetTrap { on: rng.chance(50) },
+                    81..=83 => Step::SetTrap { on: rng.chance(50) },
+                    84..=85 if cfg.permissioned => Step::Sweep { token, to: *rng.pick(&[0usize, 1, 3]), by_manager: !rng.chance(15) },
+                    84..=85 => Step::SetTrap { on: rng.chance(50) },
                     _ => {
                         let ds: std::vec::Vec<u32> = m.allow.values().filter(|v| v.0 > 0 && v.1 >= m.now).map(|v| v.1).collect();
                         Step::Advance { n: if !ds.is_empty() && rng.chance(60) { (*rng.pick(&ds) + rng.below(3) as u32).saturating_sub(1).saturating_sub(m.now) } else { rng.below(5) as u32 } }
@@ -234,6 +238,13 @@ impl Check for Forwarder {
                         } else if !*on {
                             m.allowed.retain(|x| x != token)
                         }
+                    }
+                }
+                Step::Sweep { token, to, by_manager } => {
+                    let b = m.b(*token, 100);
+                    if cfg.permissioned && *by_manager && b > 0 {
+                        m.bal.insert((*token, 100), 0);
+                        *m.bal.entry((*token, *to)).or_insert(0) += b;
                     }
                 }
                 Step::SetTrap { on } => m.trap = *on,
@@ -295,6 +306,24 @@ impl Check for Forwarder {
                         if *on { m.allowed.push(*token) } else { m.allowed.retain(|x| x != token) }
                     }
                     outcome = Some((got, exp));
+                }
+                Step::Sweep { token, to, by_manager } => {
+                    kind = "sweep";
+                    let op = if *by_manager { 2 } else { 3 };
+                    let args: Vec<Val> = (toks[*token].clone(), a(*to), a(op)).into_val(e);
+                    w.set_auth(&[(op, Inv::new(&fwd, "sweep_tokens", args.clone()))]);
+                    let got = e.try_invoke_contract::<i128, soroban_sdk::Error>(&fwd, &Symbol::new(e, "sweep_tokens"), args);
+                    let b = m.b(*token, 100);
+                    let exp = cfg.permissioned && *by_manager && b > 0;
+                    if exp {
+                        st.hit("probe.fees_swept");
+                        if !matches!(got, Ok(Ok(x)) if x == b) {
+                            return Err(violation("charge.exact_fee_le_max", "sweep_return", i, format!("sweep returned {got:?}, the forwarder held {b}")));
+                        }
+                        m.bal.insert((*token, 100), 0);
+                        *m.bal.entry((*token, *to)).or_insert(0) += b;
+                    }
+                    outcome = Some((matches!(got, Ok(Ok(_))), exp));
                 }
                 Step::Forward { token, fee, max, exp_rel, arg, tamper, user_signs, relayer, relayer_signs } => {
                     kind = "forward";
@@ -388,6 +417,10 @@ impl Check for Forwarder {
                 let have: BTreeSet<Address> = listed.iter().cloned().collect();
                 if count as usize != want.len() || have != want || have.len() != listed.len() {
                     return Err(violation("allowlist.enum_gap_free", kind, i, format!("count {count}, listed {}, model {:?}", listed.len(), m.allowed)));
+                }
+                let enabled = e.as_contract(&fwd, || stellar_fee_abstraction::is_fee_token_allowlist_enabled(e));
+                if enabled != !m.allowed.is_empty() {
+                    return Err(violation("allowlist.model_eq", "enabled", i, format!("is_fee_token_allowlist_enabled = {enabled}, model list {:?}", m.allowed)));
                 }
                 for t in 0..4 {
                     let flag = e.as_contract(&fwd, || stellar_fee_abstraction::is_allowed_fee_token(e, &toks[t]));
